@@ -321,7 +321,7 @@ func roundTrip(ad *schema.Advertisement, codec uint64) (*schema.Advertisement, e
 
 func TestCheck(t *testing.T) {
 	r := vp.New("C05", "exploration",
-		"advertisements: product of {previous link} x {entries: NoEntries/real} x {0..2 addresses} x {metadata empty/non-empty} x {IsRm} x {extended providers: none, main only, 2, 3 (main at every position)} x {override} x {context ID 0/1/64 bytes}; signer = provider and signer != provider (also with the signer itself listed as an extended provider); key types per tier. For each signed ad: verify, sign a modified by-value copy and verify the original again (its bytes unchanged), verify after DAG-JSON and DAG-CBOR round trip, every single-value mutation (27 kinds), and for representative ads every single-bit flip and field-level replacement inside every signature envelope, and every assignment of signing keys {named identity, ad signer, unrelated} to the extended-provider entries. Non-trivial: every case other than verifying the untouched ad. Distinct = distinct (ad shape, keys, check).",
+		"advertisements: product of {previous link} x {entries: NoEntries/real} x {0..2 addresses} x {metadata empty/non-empty} x {IsRm} x {extended providers: none, main only, 2, 3 (main at every position)} x {override} x {context ID 0/1/64 bytes}; signer = provider and signer != provider (also with the signer itself listed as an extended provider); key types per tier. For each signed ad: verify, (without extended providers) sign through the plain Sign entry point and sign an already signed ad again with another key, sign a modified by-value copy and verify the original again (its bytes unchanged), verify after DAG-JSON and DAG-CBOR round trip, every single-value mutation (27 kinds), and for representative ads every single-bit flip and field-level replacement inside every signature envelope, and every assignment of signing keys {named identity, ad signer, unrelated} to the extended-provider entries. Non-trivial: every case other than verifying the untouched ad. Distinct = distinct (ad shape, keys, check).",
 		"mutations that change no signed value (context ID of an ad without extended providers) must still verify",
 		"added/removed addresses are non-empty strings (an empty address does not change the undelimited signed payload, which the statement excludes)",
 		"envelope alterations are judged semantically (same decoded envelope = not an alteration)",
@@ -447,6 +447,28 @@ func TestCheck(t *testing.T) {
 				}
 			}
 		}
+		// (a'') the plain entry point, Sign, for advertisements without extended
+		// providers: signed afresh, and an advertisement that already carries a
+		// valid signature signed again with another key: verification names the
+		// key that signed last
+		if ad.ExtendedProvider == nil {
+			key := base + "|plain-Sign-and-re-Sign"
+			r.Eval(key, true)
+			fresh := build(s, c)
+			var e1, e2 error
+			if pn, m := vp.Guard(func() { e1 = fresh.Sign(signer.Priv) }); pn || e1 != nil {
+				r.Violation("sign:plain-Sign", key, fmt.Sprint(firstLine(m), e1), nil)
+			} else if id, err, _, _ := verify(fresh); err != nil || id != signer.ID {
+				r.Violation("verify:own-signature-rejected", key, fmt.Sprintf("after Sign: id=%s err=%v, want %s", id, err, signer.ID), nil)
+			} else {
+				again := cloneAd(ad) // validly signed by signer
+				if pn, m := vp.Guard(func() { e2 = again.Sign(c.unrelated.Priv) }); pn || e2 != nil {
+					r.Violation("sign:plain-Sign", key, fmt.Sprint("re-sign: ", firstLine(m), e2), nil)
+				} else if id, err, _, _ := verify(again); err != nil || id != c.unrelated.ID {
+					r.Violation("verify:re-signed-ad-names-the-earlier-signer", key, fmt.Sprintf("an ad signed by %s was signed again by %s: verification gives id=%s err=%v", signer.ID, c.unrelated.ID, id, err), nil)
+				}
+			}
+		}
 		// (b) round trips
 		for _, codec := range []uint64{uint64(multicodec.DagJson), uint64(multicodec.DagCbor)} {
 			key := fmt.Sprintf("%s|roundtrip=%x", base, codec)
@@ -492,6 +514,13 @@ func TestCheck(t *testing.T) {
 				r.Violation("verify:rejected-unsigned-change:"+mu.name, key, fmt.Sprintf("changing %s, which no signature covers, made verification fail: %v", mu.name, err), nil)
 			} else {
 				r.Outcome("mutation-rejected")
+				// a rejection leaves nothing behind: the untouched ad verifies
+				// right after an altered one was refused
+				if signed {
+					if id2, err2, _, _ := verify(ad); err2 != nil || id2 != signer.ID {
+						r.Violation("verify:untouched-ad-rejected-after-a-refused-one:"+mu.name, key, fmt.Sprintf("after the %s alteration was refused, the untouched ad gives id=%s err=%v", mu.name, id2, err2), nil)
+					}
+				}
 			}
 			// the mutated ad must also be rejected after a round trip through DAG-JSON
 			if signed && (s.ctxLen == 1 || deep) {
